@@ -173,11 +173,9 @@ class Check:
     def finish(self):
         wall = time.time() - self.t0
         shutil.rmtree(self.work, ignore_errors=True)
-        try:
-            os.rmdir(os.path.join(ROOT, ".work"))
-        except OSError:
-            pass
-        os.makedirs(os.path.join(ROOT, "evidence"), exist_ok=True)
+        scratch = bool(os.environ.get("VERIF_NO_EVIDENCE"))
+        evdir = os.path.join(ROOT, ".work", "scratch-evidence") if scratch else os.path.join(ROOT, "evidence")
+        os.makedirs(evdir, exist_ok=True)
         cov = {"states": self.states, "transitions": self.transitions,
                "traces_validated_against_impl": self.replayed,
                "samples": self.samples or ["(none)"],
@@ -190,7 +188,7 @@ class Check:
         ev = {"property_id": self.pid, "tier": self.tier, "seed": self.seed, "level": self.level,
               "coverage": cov, "assumptions": self.assumptions, "wall_s": round(wall, 2),
               "violations": len(self.violations)}
-        with open(os.path.join(ROOT, "evidence", self.pid + ".json"), "w") as f:
+        with open(os.path.join(evdir, self.pid + ".json"), "w") as f:
             json.dump(ev, f, indent=1, default=str)
         for k in self.known:
             if k.get("property") == self.pid and k.get("status") == "open":
@@ -201,7 +199,8 @@ class Check:
                     self.notes.append("open finding %s not reproduced in this run" % k["id"])
         if self.violations:
             seen = set()
-            os.makedirs(os.path.join(ROOT, "replays", self.pid), exist_ok=True)
+            rpdir = os.path.join(ROOT, ".work", "scratch-replays") if scratch else os.path.join(ROOT, "replays", self.pid)
+            os.makedirs(rpdir, exist_ok=True)
             for clause, rep in self.violations:
                 if clause in seen and len(seen) > 0:
                     continue
@@ -210,7 +209,7 @@ class Check:
                 rep.update({"property": self.pid, "tier": self.tier, "seed": self.seed, "clause": clause,
                             "repo_head": repo_head()})
                 h = hashlib.sha1(key(json.loads(json.dumps(rep, default=str))).encode()).hexdigest()[:12]
-                path = os.path.join(ROOT, "replays", self.pid, h + ".json")
+                path = os.path.join(rpdir, h + ".json")
                 with open(path, "w") as f:
                     json.dump(rep, f, indent=1, default=str)
                 print("VIOLATION property=%s replay=%s clause=%s" % (self.pid, path, clause))
